@@ -15,6 +15,7 @@ succeeds on the host (oracle).  `off` / `abbr` = what Go reports for the zone at
            the strings in order; detect/dok = dateparse.ParseFormat per string, auto/aok =
            dateparse.ParseIn per string (oracles), offs/abbrs = the zone at the returned instant
     dur    <arg>                                               {duration <arg>}
+    frac   <f> <unit> <k>                                      uint64(float64(f) * (float64(unit) / 10^k)) – the binary64 term of a fraction in ParseDuration
     durf   <arg>                                               {durationformat <arg>}
     cal    <days>                                              reference calendar only
     seqe   <prefix> <kind> … (the fields of seq)              the date stage is `"<prefix>{0}"`: `<prefix>` is what it
@@ -205,6 +206,10 @@ def handle : List String → String
     match Hex.dec arg with
     | some arg => render "." (duration arg)
     | none => "bad-args"
+  | ["frac", f, unit, k] =>
+    match f.toNat?, unit.toNat?, k.toNat? with
+    | some f, some unit, some k => s!"ok {fracTerm f unit k}"
+    | _, _, _ => "bad-args"
   | ["durf", arg] =>
     match Hex.dec arg with
     | some arg => render "." (durationFormat arg)
